@@ -299,6 +299,8 @@ def run_random(spec, acc, api):
 
 def run_shard(spec, acc):
     api = _api()
+    from .. import exec_prog
+    acc.count('prior_runs_without_globals', exec_prog.prior_runs())
     if spec['part'] == 'exhaustive':
         run_exhaustive(spec, acc, api)
     else:
